@@ -187,6 +187,11 @@ def diff_replies(req_path, real_path, model_path, limit=20):
             if skip_session:
                 UNMODELLED_SKIPPED[0] += 1
                 continue
+            if m.rstrip("\n") == "unmodelled":
+                # a single stateless request outside the model (printing a literal that needs
+                # Rust's escape_debug): decided by the oracle (the reference reader) only
+                UNMODELLED_SKIPPED[0] += 1
+                continue
             if r != m:
                 if len(mism) < limit:
                     mism.append({"line": i, "request": q.rstrip("\n"), "real": r.rstrip("\n"),
